@@ -274,7 +274,7 @@ CHECKS = {
         "the global context. The same definitions run under vm_compute against Solver.solve of /repo on random reflective, "
         "non-reciprocal, lossy, multi-link, partially exposed circuits built through the public API in both styles, with scrambled pin "
         "index maps; Coq compares every coefficient between exposed pins within 1e-9."
-        " The streams also map an external name twice (the last mapping counts) and link one pair of structures by 2-4 links in permuted pin order. Components are Models or bare Structures carrying their own matrix. Malformed netlists also give an occupied pin a second link (both building styles); placements may wire at once through Model.put(pin, (structure, pin)) with pins by name or as Pin objects. On every run harness/translate_join.py also translates the CURRENT source of the index bookkeeping around the star product (Structure.sel_output / sel_input / split_in_out / get_S_back) to Gallina and coq/templates/JoinSrcProof.v proves it equal to Solve.part / Solve.assemble / positions in ins ++ outs / Solve.keep for all matrices and pin lists, and the rest of Structure.join's bookkeeping: the pin list of the merged structure, the choice of the joined pins (get_out_to / get_in_from / pairing loop = Solve.links), the merged link table and neighbour list, and the preservation of the table representation by a merge (13 theorems, closed under the global context). Several pins of one component may be exposed in one Structure.raise_pins(pins, names) call listed against declaration order.",
+        " The streams also map an external name twice (the last mapping counts) and link one pair of structures by 2-4 links in permuted pin order. Components are Models or bare Structures carrying their own matrix. Malformed netlists also give an occupied pin a second link (both building styles); placements may wire at once through Model.put(pin, (structure, pin)) with pins by name or as Pin objects. On every run harness/translate_join.py also translates the CURRENT source of the index bookkeeping around the star product (Structure.sel_output / sel_input / split_in_out / get_S_back) to Gallina and coq/templates/JoinSrcProof.v proves it equal to Solve.part / Solve.assemble / positions in ins ++ outs / Solve.keep for all matrices and pin lists, and the rest of Structure.join's bookkeeping: the pin list of the merged structure, the choice of the joined pins (get_out_to / get_in_from / pairing loop = Solve.links), the merged link table and neighbour list, the preservation of the table representation by a merge and the list of leaf structures (14 theorems, closed under the global context). Several pins of one component may be exposed in one Structure.raise_pins(pins, names) call listed against declaration order.",
    note="Trusted: Coq kernel + vm_compute; Bignums/Uint63 primitives for the executed instance only; hand-written model tied by sampled "
         "correspondence; harness. Theorems conditional on the model returning Ok (all inner systems met by the schedule invertible). "
         "The model follows the fixed code (F01: self-connections are rejected).",
